@@ -53,10 +53,22 @@ type query struct {
 	answered bool
 }
 
+// attributed is the device the request is attributed to: the one the profile
+// database knows, unless the server group has profiles switched off.
+func (q query) attributed() int {
+	if q.srv == glueNoProfiles || glueProtos[q.srv] == agd.ProtoDNSCrypt {
+		// DNSCrypt carries no device id and is not looked up by address
+		// (devicefinder.supportsDeviceID): such requests are anonymous.
+		return -1
+	}
+
+	return q.dev
+}
+
 func (q query) line() string {
 	dev, ctry, asn := "-", "-", "-"
-	if q.dev >= 0 {
-		dev = fmt.Sprint(q.dev)
+	if q.attributed() >= 0 {
+		dev = fmt.Sprint(q.attributed())
 	}
 	if q.loc {
 		ctry, asn = fmt.Sprint(q.ctry), fmt.Sprint(q.asn)
@@ -66,7 +78,14 @@ func (q query) line() string {
 		map[bool]string{false: "noqlog", true: "qlog"}[q.qlog], map[bool]string{false: "noans", true: "ans"}[q.answered])
 }
 
-var glueProtos = []agd.Protocol{agd.ProtoDNS, agd.ProtoDoT, agd.ProtoDoQ, agd.ProtoDoH}
+// glueProtos are the protocols of glueFixture.servers, in order: every
+// protocol the program has, and (last) a plain-DNS server of a second server
+// group that has profiles switched off: nothing is attributed to a device
+// there, so nothing is billed.
+var glueProtos = []agd.Protocol{agd.ProtoDNS, agd.ProtoDoT, agd.ProtoDoQ, agd.ProtoDoH, agd.ProtoDNSCrypt, agd.ProtoDNS}
+
+// glueNoProfiles is the index of the server of the group without profiles.
+const glueNoProfiles = 5
 
 type planUploader struct {
 	fail bool
@@ -87,6 +106,7 @@ func (u *planUploader) Upload(_ context.Context, records billstat.Records) (err 
 type glueFixture struct {
 	cur     *query
 	st      *stack.Stack
+	stNP    *stack.Stack
 	servers []*agd.Server
 	rr      *billstat.RuntimeRecorder
 	up      *planUploader
@@ -103,6 +123,10 @@ func newGlueFixture() (f *glueFixture) {
 		stack.NewServer("dot", agd.ProtoDoT, true, &agd.ServerBindData{AddrPort: netip.MustParseAddrPort("192.0.2.2:853")}),
 		stack.NewServer("doq", agd.ProtoDoQ, true, &agd.ServerBindData{AddrPort: netip.MustParseAddrPort("192.0.2.2:784")}),
 		stack.NewServer("doh", agd.ProtoDoH, true, &agd.ServerBindData{AddrPort: netip.MustParseAddrPort("192.0.2.2:443")}),
+		stack.NewServer("dnscrypt", agd.ProtoDNSCrypt, true, &agd.ServerBindData{AddrPort: netip.MustParseAddrPort("192.0.2.2:5443")}),
+	}
+	serversNP := []*agd.Server{
+		stack.NewServer("dns_np", agd.ProtoDNS, true, &agd.ServerBindData{AddrPort: netip.MustParseAddrPort("192.0.2.3:53")}),
 	}
 	lookup := func() (*agd.Profile, *agd.Device, error) {
 		q := f.cur
@@ -163,6 +187,10 @@ func newGlueFixture() (f *glueFixture) {
 		DDR: &agd.DDR{}, DeviceDomains: []string{stack.DeviceDomain}, Name: stack.ServerGroupName,
 		FilteringGroup: stack.FilteringGroupID, Servers: f.servers, ProfilesEnabled: true,
 	}
+	groupNP := &agd.ServerGroup{
+		DDR: &agd.DDR{}, DeviceDomains: []string{stack.DeviceDomain}, Name: "verif_no_profiles",
+		FilteringGroup: stack.FilteringGroupID, Servers: serversNP, ProfilesEnabled: false,
+	}
 	hc := &dnssvc.HandlersConfig{
 		BaseLogger:       slogutil.NewDiscardLogger(),
 		Cache:            &dnssvc.CacheConfig{Type: dnssvc.CacheTypeNone},
@@ -212,7 +240,7 @@ func newGlueFixture() (f *glueFixture) {
 			stack.FilteringGroupID: {FilterConfig: &filter.ConfigGroup{Parental: &filter.ConfigParental{},
 				RuleList: &filter.ConfigRuleList{}, SafeBrowsing: &filter.ConfigSafeBrowsing{}}, ID: stack.FilteringGroupID},
 		},
-		ServerGroups: []*agd.ServerGroup{group},
+		ServerGroups: []*agd.ServerGroup{group, groupNP},
 		EDEEnabled:   true,
 	}
 	handlers, err := dnssvc.NewHandlers(context.Background(), hc)
@@ -220,6 +248,8 @@ func newGlueFixture() (f *glueFixture) {
 		panic(err)
 	}
 	f.st = &stack.Stack{Effects: &stack.Effects{}, Handlers: handlers, Group: group, Servers: f.servers}
+	f.stNP = &stack.Stack{Effects: &stack.Effects{}, Handlers: handlers, Group: groupNP, Servers: serversNP}
+	f.servers = append(f.servers, serversNP...)
 
 	return f
 }
@@ -231,7 +261,7 @@ func (f *glueFixture) serve(q *query, idx int) (o stack.Outcome) {
 	f.cur = q
 	srv := f.servers[q.srv]
 	ri := &dnsserver.RequestInfo{StartTime: time.Unix(0, q.start)}
-	if srv.Protocol != agd.ProtoDNS {
+	if p := srv.Protocol; p == agd.ProtoDoT || p == agd.ProtoDoQ || p == agd.ProtoDoH {
 		ri.TLSServerName = "dev0000." + stack.DeviceDomain
 	}
 	if srv.Protocol == agd.ProtoDoH {
@@ -253,7 +283,12 @@ func (f *glueFixture) serve(q *query, idx int) (o stack.Outcome) {
 		}
 	}()
 
-	return f.st.Serve(ctx, &stack.Req{
+	st := f.st
+	if q.srv == glueNoProfiles {
+		st = f.stNP
+	}
+
+	return st.Serve(ctx, &stack.Req{
 		Server: srv, Msg: msg, ReqInfo: ri,
 		Remote: netip.AddrPortFrom(glueClient, 12345), Local: srv.BindData()[0].AddrPort,
 	})
@@ -316,14 +351,17 @@ func glueCampaign(x *runner) {
 					violate("panic-while-serving", o.Err.Error())
 				}
 				r.Count("server.query.proto_" + glueProtos[q.srv].String())
-				if q.dev >= 0 && q.answered {
+				if q.srv == glueNoProfiles {
+					r.Count("server.query.group_without_profiles")
+				}
+				if dev := q.attributed(); dev >= 0 && q.answered {
 					// Every query of a known device that the server answered is
 					// billed, whatever the profile's query-log setting, the
 					// verdict of the filters or the location.  (A request whose
 					// handler fails gets no answer from mainmw and is not billed:
 					// the code returns before recordQueryInfo.)
 					nBilled++
-					recorded[q.dev]++
+					recorded[dev]++
 					mm := meta{T: q.start, P: uint8(glueProtos[q.srv])}
 					if q.loc {
 						mm.C, mm.A = q.ctry, q.asn
@@ -331,12 +369,12 @@ func glueCampaign(x *runner) {
 					} else {
 						r.Count("server.query.no_location")
 					}
-					last[q.dev] = mm
+					last[dev] = mm
 					r.Count("server.query.qlog_" + fmt.Sprint(q.qlog))
 					if q.qlog != (f.qlogs == before+1) {
 						r.Count("server.query.qlog_mismatch")
 					}
-				} else if q.dev >= 0 {
+				} else if q.attributed() >= 0 {
 					r.Count("server.query.not_answered")
 				} else {
 					r.Count("server.query.no_device")
@@ -349,8 +387,8 @@ func glueCampaign(x *runner) {
 				}
 				pend := check(q.line())
 				one := map[int]rec{}
-				if p, ok := pend[q.dev]; ok && q.dev >= 0 {
-					one[q.dev] = p
+				if p, ok := pend[q.attributed()]; ok && q.attributed() >= 0 {
+					one[q.attributed()] = p
 				}
 				lines, real = append(lines, q.line()), append(real, showRecs("pend", one))
 
